@@ -16,16 +16,17 @@ ParseBad == {"badobj", "badtag", "unknowntag", "strayend", "strayclause", "badif
 \* newlines before the first parse-time failing node, in document order: [found, n]
 RECURSIVE ScanSeq(_, _)
 RECURSIVE ScanNode(_, _)
+Padded(n, acc) == [found |-> acc.found, n |-> acc.n + Fld(n, "padnl", 0)]
 ScanBodies(bs, acc) ==
   LET F[k \in 0..Len(bs)] == IF k = 0 THEN acc ELSE IF F[k - 1].found THEN F[k - 1] ELSE ScanSeq(bs[k].body, F[k - 1]) IN F[Len(bs)]
 ScanNode(n, acc) ==
   IF acc.found THEN acc
   ELSE CASE n.t \in ParseBad -> [found |-> TRUE, n |-> acc.n]
          [] n.t \in {"text", "raw", "comment"} -> [found |-> FALSE, n |-> acc.n + Newlines(n.s)]
-         [] n.t = "if" -> ScanBodies(n.branches, acc)
-         [] n.t = "case" -> ScanBodies(n.whens, ScanSeq(Fld(n, "pre", <<>>), acc))
-         [] n.t = "for" -> LET a1 == ScanSeq(n.body, acc) IN IF a1.found THEN a1 ELSE ScanSeq(Fld(n, "else", <<>>), a1)
-         [] n.t = "capture" -> ScanSeq(n.body, acc)
+         [] n.t = "if" -> ScanBodies(n.branches, Padded(n, acc))
+         [] n.t = "case" -> ScanBodies(n.whens, ScanSeq(Fld(n, "pre", <<>>), Padded(n, acc)))
+         [] n.t = "for" -> LET a1 == ScanSeq(n.body, Padded(n, acc)) IN IF a1.found THEN a1 ELSE ScanSeq(Fld(n, "else", <<>>), a1)
+         [] n.t = "capture" -> ScanSeq(n.body, Padded(n, acc))
          [] OTHER -> [found |-> FALSE, n |-> acc.n + Fld(n, "padnl", 0)]
 ScanSeq(ns, acc) ==
   LET F[k \in 0..Len(ns)] == IF k = 0 THEN acc ELSE ScanNode(ns[k], F[k - 1]) IN F[Len(ns)]
